@@ -1,0 +1,7 @@
+//go:build !verif
+
+package cluster
+
+// verifFaultSendShard is a no-op in normal builds. With the build tag `verif` it is a
+// fault-injection point used by the verification harness (see verif_fault_on.go).
+func verifFaultSendShard(_ *ClusterNode, _ *RPCSendShardRequest) error { return nil }
